@@ -7,11 +7,12 @@ import { canon } from '../runtime/canon.mjs';
 
 export const id = 'C03';
 
-export const HOSTS = ['boundImport', 'unbound', 'member', 'Teleport'];
-export const SHAPES = ['none', 'identBound', 'identUnbound', 'call', 'arrow', 'fnExpr', 'object', 'text', 'element', 'memberExpr', 'cond', 'mixed1', 'mixed2', 'spread', 'spreadCall', 'spreadThenText', 'nestedComp', 'wsOnly', 'optMember', 'optMemberDeep', 'template', 'binary', 'newExpr', 'arrayLit', 'logicalOr', 'parenCall', 'awaitLike'];
+export const HOSTS = ['boundImport', 'unbound', 'member', 'memberHtmlName', 'Teleport'];
+export const SHAPES = ['none', 'identBound', 'identUnbound', 'call', 'arrow', 'fnExpr', 'object', 'text', 'element', 'memberExpr', 'cond', 'mixed1', 'mixed2', 'spread', 'spreadCall', 'spreadThenText', 'nestedComp', 'wsOnly', 'elementWithDirective', 'elementWithVModel', 'optMember', 'optMemberDeep', 'template', 'binary', 'newExpr', 'arrayLit', 'logicalOr', 'parenCall', 'awaitLike'];
 export const KINDS = ['vnode', 'string', 'array', 'slots', 'slotfn', 'number', 'nullish'];
 export const VSLOTS = ['absent', 'ident', 'objLit'];
 export const CONTEXTS = ['arrowExpr', 'moduleLevel', 'fnBody', 'nestedBlock', 'classMethod', 'arrowInArrow'];
+export const LOOP_CONTEXTS = ['forOfBlock', 'forOfNoBlock', 'mapArrowExpr', 'mapArrowAfterPending', 'whileBlock'];
 
 const KIND_SPEC = {
   vnode: { k: 'vnode', id: 'kidVNode' },
@@ -28,6 +29,7 @@ export function hostTag(b, host) {
     case 'boundImport': b.importDefault('probe:C0', 'C0'); return { kind: 'bound', src: 'C0', i: b.leaf('C0') };
     case 'unbound': return { kind: 'unbound', name: 'Foo', src: 'Foo' };
     case 'member': b.importNs('probe:ns', 'ns0'); return { kind: 'member', src: 'ns0.Comp', i: b.leaf('ns0.Comp') };
+    case 'memberHtmlName': b.importNs('probe:ns', 'ns0'); return { kind: 'member', src: 'ns0.div', i: b.leaf('ns0.div') };
     case 'Teleport': b.importNamed('vue', 'Teleport'); return { kind: 'builtin', src: 'Teleport', i: b.leaf('Teleport') };
     case 'unboundLower': return { kind: 'unbound', name: 'foo', src: 'foo' };
     default: throw new Error(host);
@@ -68,6 +70,18 @@ export function makeKids(b, shape, kind, st = { n: 0 }) {
     }
     case 'text': return [C.text(`hello ${st.n++}`)];
     case 'element': return [C.el({ tag: { kind: 'html', name: 'i', src: 'i' }, attrs: [A.attr('id', { k: 'str', raw: `k${st.n++}` })], children: [], selfClose: true })];
+    case 'elementWithDirective': {
+      // the position of a directive value relative to children is not constrained: its probe does not log
+      const g = b.global({ k: 'bool', v: true }, { log: false }); const f = b.fnGlobal({ k: 'str', v: 'inner' });
+      const den = { name: 'show', mods: [], value: { k: 'leaf', i: b.leaf(g) } };
+      return [C.el({ tag: { kind: 'html', name: 'div', src: 'div' }, attrs: [{ t: 'dir', den, src: `v-show={${g}}` }], children: [{ ...C.expr(b.leaf(`${f}()`), `${f}()`) }] })];
+    }
+    case 'elementWithVModel': {
+      const f = b.fnGlobal({ k: 'str', v: 'cls' });
+      b.pre.push('let kidModel = "km";');
+      const den = { target: b.leaf('kidModel'), host: { isComp: false }, directive: 'vModelText', mods: [], guard: null };
+      return [C.el({ tag: { kind: 'html', name: 'input', src: 'input' }, attrs: [A.attr('class', { k: 'leaf', i: b.leaf(`${f}()`), src: `${f}()` }), { t: 'model', den, src: 'v-model={kidModel}' }], children: [], selfClose: true })];
+    }
     case 'memberExpr': { const m = b.proxyGlobal(); return [{ ...C.expr(b.leaf(`${m}.kid`), `${m}.kid`), shape: 'other' }]; }
     case 'optMember': { const m = b.proxyGlobal(); return [{ ...C.expr(b.leaf(`${m}?.kid`), `${m}?.kid`), shape: 'other' }]; }
     case 'optMemberDeep': { const m = b.proxyGlobal({ user: { k: 'obj', v: { name: val } } }); return [{ ...C.expr(b.leaf(`${m}.user?.name`), `${m}.user?.name`), shape: 'other' }]; }
@@ -124,6 +138,26 @@ export function wrapContext(b, name, jsx, ctx) {
   }
 }
 
+/** the JSX is evaluated several times (loop body / callback); each resulting vnode must keep its own cached call child */
+function buildLoop(host, ctx, vs) {
+  const b = new ModuleBuilder();
+  const tag = hostTag(b, host);
+  b.env.globals.cf0 = { v: { k: 'counterfn', id: 'cf0' }, log: false };
+  b.env.globals.cf9 = { v: { k: 'counterfn', id: 'cf9' }, log: false };
+  const attrs = makeVSlots(b, vs);
+  const el = { tag, attrs, children: [{ ...C.expr(b.leaf('cf0()'), 'cf0()'), shape: 'call' }] };
+  const J = renderElement(el);
+  switch (ctx) {
+    case 'forOfBlock': b.thunks.push(`export function t0() {\n  const out = [];\n  for (const it of [1, 2, 3]) { out.push(${J}); }\n  return out;\n}`); break;
+    case 'forOfNoBlock': b.thunks.push(`export function t0() {\n  const out = [];\n  for (const it of [1, 2, 3]) out.push(${J});\n  return out;\n}`); break;
+    case 'mapArrowExpr': b.thunks.push(`export const t0 = () => [1, 2, 3].map((it) => ${J});`); break;
+    case 'mapArrowAfterPending': b.thunks.push(`export function t0() {\n  const header = <Hdr>{cf9()}</Hdr>;\n  const rows = [1, 2, 3].map((it) => ${J});\n  return rows;\n}`); break;
+    case 'whileBlock': b.thunks.push(`export function t0() {\n  const out = []; let i = 0;\n  while (i++ < 3) { out.push(${J}); }\n  return out;\n}`); break;
+    default: throw new Error(ctx);
+  }
+  return { src: b.source(), spec: { thunks: [{ name: 't0' }], env: b.env, ctx, shape: 'loopCall', vs, loop: true } };
+}
+
 function build(host, shape, kind, vs, ctx) {
   const b = new ModuleBuilder();
   const tag = hostTag(b, host);
@@ -149,6 +183,10 @@ export function* generate({ tier, seed }) {
       variants: opts.map((o, i) => ({ vid: `v${i}`, options: o })),
     };
   };
+  for (const host of HOSTS) for (const ctx of LOOP_CONTEXTS) for (const vs of VSLOTS) {
+    const c = buildLoop(host, ctx, vs);
+    yield { gid: `C03-${n++}`, src: c.src, syntax: 'jsx', spec: c.spec, feature: `loop|${host}|${ctx}|${vs}`, variants: OPTS.map((o, i) => ({ vid: `v${i}`, options: o })) };
+  }
   const all = [];
   for (const host of HOSTS) for (const shape of SHAPES) for (const kind of (RUNTIME_SHAPES.has(shape) ? KINDS : ['vnode'])) for (const vs of VSLOTS) for (const ctx of CONTEXTS) {
     all.push([host, shape, kind, vs, ctx]);
@@ -187,6 +225,30 @@ export async function check(group, records) {
     if (!rec || rec.status !== 'ok') { out.push(inconclusive({ ...base, reason: `transform status ${rec && rec.status}` })); continue; }
     if (rec.n_err > 0) { out.push(violated({ ...base, oracle: 'no-diagnostic-on-valid-input', sig: 'C03/unexpected-diagnostic', detail: rec.diags })); continue; }
     const th = spec.thunks[0];
+    if (spec.loop) {
+      const liveLoop = (r) => {
+        const e = r.thunks[0];
+        if (e.A.error) return violated({ ...base, oracle: 'thunk-evaluates', sig: `C03/runtime-error/${e.A.error.name}/${spec.ctx}`, detail: e.A.error });
+        const arr = e.A.raw;
+        if (!Array.isArray(arr) || arr.length !== 3) return inconclusive({ ...base, reason: 'loop thunk did not return 3 vnodes' });
+        const wrapped = (v.options || {}).enableObjectSlots !== false;
+        const got = arr.map((vn) => { try { const ch = vn.children; const fn = typeof ch === 'function' ? ch : ch && ch.default; return typeof fn === 'function' ? JSON.stringify(fn()) : 'no-slot'; } catch (ex) { return 'threw ' + ex.name; } });
+        // with object slots on, each vnode's call child was evaluated once at its creation: cf0#1, cf0#2, cf0#3
+        if (wrapped) {
+          const exp = ['["cf0#1"]', '["cf0#2"]', '["cf0#3"]'];
+          if (JSON.stringify(got) !== JSON.stringify(exp)) return violated({ ...base, oracle: 'each evaluation of the JSX keeps its own cached call child', sig: `C03/loop/slot-value-shared-or-wrong/${spec.ctx}`, detail: { got, expected: exp } });
+        } else if (got.some((x) => x.startsWith('threw') || x === 'no-slot')) {
+          return violated({ ...base, oracle: 'slots of loop-created vnodes evaluate', sig: `C03/loop/slot-error/${spec.ctx}`, detail: { got } });
+        }
+        return held({ ...base, events: { vnodes_from_loop: 3, slot_invocations: 3 }, shape: got.join(',') });
+      };
+      const r = await evalSemantic(spec, rec, v.options, { live: liveLoop, runRef: false });
+      if (r.error) {
+        const harness = ['HarnessUnknownModule', 'HarnessError', 'MockUnimplemented'].includes(r.error.name) || r.error.phase === 'exec-declined';
+        out.push(harness ? inconclusive({ ...base, reason: short(r.error) }) : violated({ ...base, oracle: 'module-evaluates', sig: `C03/module-error/${r.error.phase}/${r.error.name}/${spec.ctx}`, detail: r.error }));
+      } else out.push(r.live);
+      continue;
+    }
     const live = (r) => {
       const e = r.thunks[0];
       if (e.B.error) return inconclusive({ ...base, reason: 'reference failed: ' + short(e.B.error) });
